@@ -17,6 +17,7 @@ import (
 	"fmt"
 	"math/rand"
 	"net"
+	"strings"
 	"sync"
 	"time"
 
@@ -406,6 +407,10 @@ func (r *meshRun) step(a meshAct, d time.Duration) string {
 	}
 	if req.point != a.Act || (a.Act == "Dial" || a.Act == "AFirst" || a.Act == "ASecond") && (req.a != a.A || req.b != a.B) ||
 		a.Act == "Wait" && req.a != a.A {
+		if req.point == "Dial" && a.Act == "Dial" && req.b == a.B {
+			// the same round, another target first: the order of the dials of one round is the implementation's choice
+			return fmt.Sprintf("dial-order: thread %v dials %d where the behaviour dials %d (round %d)", k, req.a, a.A, a.B)
+		}
 		return fmt.Sprintf("thread %v is at gate %s(%d,%d), behaviour wants %s(%d,%d)", k, req.point, req.a, req.b, a.Act, a.A, a.B)
 	}
 	s.mu.Lock()
@@ -476,7 +481,10 @@ func c19Replay(idx int, mc *meshCase) (*Result, error) {
 		return res, nil
 	}
 	r.finalCheck()
-	if diverged != "" && len(res.Viol) == 0 {
+	if strings.Contains(diverged, "dial-order:") {
+		// not replayable on this implementation (it dials in another order); the mesh it formed on its own was checked
+		res.Class = "dial-order-differs"
+	} else if diverged != "" && len(res.Viol) == 0 {
 		res.drift("%s", diverged)
 	}
 	res.Nontrivial = mc.N >= 3
